@@ -93,29 +93,29 @@ func (g *gramGen) term(depth int) *Sexp {
 		return g.maybeMemo(g.named(LA("choice", xs...)))
 	case r < 74:
 		n := 1 + g.rng.Intn(3)
-		xs := []*Sexp{A("of"), noOpts}
+		xs := []*Sexp{A("of"), g.sopts()}
 		for i := 0; i < n; i++ {
 			xs = append(xs, g.term(depth-1))
 		}
 		return g.maybeMemo(LA("seq", xs...))
 	case r < 78:
 		n := 2 + g.rng.Intn(2)
-		xs := []*Sexp{A("try"), noOpts}
+		xs := []*Sexp{A("try"), g.sopts()}
 		for i := 0; i < n; i++ {
 			xs = append(xs, g.term(depth-1))
 		}
 		return g.maybeMemo(LA("seq", xs...))
 	case r < 81:
 		n := 2 + g.rng.Intn(2)
-		xs := []*Sexp{A("foa"), noOpts}
+		xs := []*Sexp{A("foa"), g.sopts()}
 		for i := 0; i < n; i++ {
 			xs = append(xs, g.term(depth-1))
 		}
 		return g.maybeMemo(LA("seq", xs...))
 	case r < 86:
-		return g.maybeMemo(LA("many", N(g.rng.Intn(2)), noOpts, g.term(depth-1)))
+		return g.maybeMemo(LA("many", N(g.rng.Intn(2)), g.sopts(), g.term(depth-1)))
 	case r < 89:
-		return g.maybeMemo(LA("sepby", N(g.rng.Intn(2)), noOpts, g.term(depth-1), g.term(depth-1)))
+		return g.maybeMemo(LA("sepby", N(g.rng.Intn(2)), g.sopts(), g.term(depth-1), g.term(depth-1)))
 	case r < 96:
 		return LA("opt", g.term(depth-1))
 	case r < 98:
@@ -137,6 +137,16 @@ func (g *gramGen) term(depth int) *Sexp {
 	}
 }
 
+// sopts: the options of a generated Sequence - mostly none; in the streams that name alternatives (C04, C06) one sequence in
+// four carries a Name of its own (Sequence.Name: the not-found error at the sequence's own start is replaced, seq.go Parse)
+func (g *gramGen) sopts() *Sexp {
+	if g.nameAlts && !g.noNameSingle && g.rng.Intn(4) == 0 {
+		g.nameCount++
+		return LA("o", A("none"), HS("s"+strconv.Itoa(g.nameCount)), A("0"), A("-"))
+	}
+	return noOpts
+}
+
 // rule builds the body of rule i with a bias towards the shapes the properties talk about.
 func (g *gramGen) rule(i int, depth int) *Sexp {
 	if g.upwardRef >= 0 {
@@ -148,13 +158,13 @@ func (g *gramGen) rule(i int, depth int) *Sexp {
 		r := g.rng.Intn(100)
 		switch {
 		case r < 30 && g.upwardRef < 0: // direct/indirect left recursion: N x
-			xs := []*Sexp{A("of"), noOpts, g.ref()}
+			xs := []*Sexp{A("of"), g.sopts(), g.ref()}
 			for k := g.rng.Intn(2) + 1; k > 0; k-- {
 				xs = append(xs, g.term(depth-1))
 			}
 			alts = append(alts, LA("seq", xs...))
 		case r < 45 && g.upwardRef < 0: // hidden left recursion: x? N y
-			xs := []*Sexp{A("of"), noOpts, LA("opt", runeT(g.ch())), g.ref(), runeT(g.ch())}
+			xs := []*Sexp{A("of"), g.sopts(), LA("opt", runeT(g.ch())), g.ref(), runeT(g.ch())}
 			alts = append(alts, LA("seq", xs...))
 		case r < 40 && g.upwardRef >= 0:
 			// two alternatives sharing a prefix: the shared (memoized) parser is asked twice at one position
@@ -164,7 +174,7 @@ func (g *gramGen) rule(i int, depth int) *Sexp {
 				g.nextMemo++
 				pre = LA("memo", N(k), pre)
 			}
-			alts = append(alts, LA("seq", A("of"), noOpts, pre, runeT(g.ch())), LA("seq", A("of"), noOpts, pre.Clone(), runeT(g.ch())))
+			alts = append(alts, LA("seq", A("of"), g.sopts(), pre, runeT(g.ch())), LA("seq", A("of"), g.sopts(), pre.Clone(), runeT(g.ch())))
 		case r < 60:
 			alts = append(alts, runeT(g.ch()))
 		default:
